@@ -185,14 +185,14 @@ def macro_mod_case(cid, rng):
     return Case(cid, src, meta={"truth": truth, "n_items": n, "nontrivial": True, "family": "macro_rules"}, run=False, expect="expand")
 
 
-def method_names(rec):
+def method_names(rec, trait_name="Tr"):
     out, inp = rec["output"], rec["input"]
     bi = tok.find_brace(inp)
     # the generated trait is the last trait item of the emitted module (the module's own items come first; macro_rules
     # fragments may be re-emitted without their invisible group, so positions are not compared here - C02 does that)
     for it in reversed(tok.split_items(out[bi]["s"])):
         k = tok.item_kind(it)
-        if k["kind"] == "trait":
+        if k["kind"] == "trait" and k["name"] == trait_name and "s" in it[-1]:
             names = []
             for m in tok.split_items(it[-1]["s"]):
                 mk = tok.item_kind(m)
@@ -265,6 +265,7 @@ def run(tier, seed):
             pos = rng.randint(j0, len(b.lines) - 1)
             b.lines.insert(pos, "    " + e)
         c = b.case()
+        c.meta["trait_name"] = b.trait_name
         c.meta["truth"] = [f["name"] for f in c.meta["fns"]]
         comp.append(c)
     st = selftest.case("selftest_c08")
@@ -279,7 +280,7 @@ def run(tier, seed):
         if c.removed is None:
             recs = [r for r in c.records if r["line"] == c.marks["inv"] and r["status"] == "end"]
             if recs:
-                got = method_names(recs[0])
+                got = method_names(recs[0], c.meta["trait_name"])
                 if got != c.meta["truth"]:
                     rep.violation(c.id, "methods-differ:compiled", "trait methods %s, expected %s" % (got, c.meta["truth"]))
                 rep.bump("compiled_modules_checked")
